@@ -63,6 +63,43 @@ impl C07 {
         if after != 0 {
             return Err(Fail::new("nodes-expanded-after-stop", format!("{} : {} further node entries after the flag was flipped at poll {}", p.fen4(), after, n)).with_case(case()));
         }
+        // the unwinding must leave nothing behind that makes the NEXT answer wrong: with the table the stopped
+        // search left, every cached child of the root is searched as a root of its own (sampled stop instants)
+        if n % 8 == 3 || n == 0 {
+            let mut probes = 0;
+            for m in p.legal() {
+                let q = p.make(m);
+                if !search_friendly(&q) {
+                    continue;
+                }
+                let mut g2 = g.clone();
+                let Some(em) = eng::find_legal(&mut g2, &m.uci()) else { continue };
+                g2.push_history(em);
+                if !table.contains_key(&g2.hash()) {
+                    continue;
+                }
+                probes += 1;
+                srch::hooks::reset(-1, false);
+                let out = srch::run_search(&g2, &mut table, Some(1 + (probes % 2) as u8), 20_000);
+                let legal2: Vec<String> = q.legal().iter().map(|x| x.uci()).collect();
+                let ok = match &out.best {
+                    None => legal2.is_empty(),
+                    Some(b) => legal2.contains(b),
+                };
+                ev.eval();
+                if out.panicked.is_some() || !ok {
+                    return Err(Fail::new(
+                        "stopped-search-leaves-state-that-makes-the-next-answer-illegal",
+                        format!("{} : after a depth-{} search stopped at poll {}, `position … moves {}` + `go depth {}` answers {:?} (panic {:?}); legal there: {:?}", p.fen4(), depth, n, m.uci(), 1 + (probes % 2), out.best, out.panicked, legal2),
+                    )
+                    .with_case(case()));
+                }
+                if probes >= 4 {
+                    break;
+                }
+            }
+            ev.class_n("follow_up_searches_of_cached_children", probes as u64);
+        }
         if n < d1_polls {
             ev.class("stop_before_first_iteration_completes");
             ev.nontrivial(mix(fp_pos(p) ^ mix(n)), || json!({"position": p.fen4(), "stop_after_polls": n, "polls_for_depth_1": d1_polls, "answer": best}));
@@ -138,7 +175,7 @@ impl Prop for C07 {
     }
 
     fn rule(&self) -> String {
-        "Cases: end positions of generated walks, fresh or warm table (warm = after a depth-2 search of the same position). In-process the node-entry hook flips the stop flag after exactly N polls, N enumerated exhaustively 0..=64 and then geometrically (x1.4) up to the poll count of the full depth-limited search (depth 3-4), one search per N: the result must be a move legal in the reference model whenever the model has one (None only for checkmate/stalemate roots), and the hook must count 0 node entries after the flip. About 1 case in 12 drives the real binary: `go infinite` immediately followed by `stop`, `go movetime 0..10`, or VERIF_STOP_AFTER_POLLS=N with `go depth 4`; `bestmove none` with legal moves available is the violation. evaluations = stopped searches. Non-trivial: N smaller than the polls a depth-1 iteration needs (the window in which no iteration has completed), and every binary session; distinct by (position, N).".into()
+        "Cases: end positions of generated walks, fresh or warm table (warm = after a depth-2 search of the same position). In-process the node-entry hook flips the stop flag after exactly N polls, N enumerated exhaustively 0..=64 and then geometrically (x1.4) up to the poll count of the full depth-limited search (depth 3-4), one search per N: the result must be a move legal in the reference model whenever the model has one (None only for checkmate/stalemate roots), and the hook must count 0 node entries after the flip; for a sample of stop instants every cached child of the root is then searched (depth 1-2) with the table the stopped search left behind and must get a legal answer too. About 1 case in 12 drives the real binary: `go infinite` immediately followed by `stop`, `go movetime 0..10`, or VERIF_STOP_AFTER_POLLS=N with `go depth 4`; `bestmove none` with legal moves available is the violation. evaluations = stopped searches. Non-trivial: N smaller than the polls a depth-1 iteration needs (the window in which no iteration has completed), and every binary session; distinct by (position, N).".into()
     }
 
     fn assumptions(&self) -> Vec<String> {
